@@ -34,6 +34,7 @@ type Cfg struct {
 	Mode    string `json:"mode"`
 	NilMatch bool  `json:"nilmatch"` // callers pass a nil matcher
 	CtxDeadline []int `json:"-"` // per caller: context deadline in units after the start of the run (0 = none)
+	CtxBackground []bool `json:"-"` // per caller: the call is made with context.Background() (it cannot be cancelled: Done() is nil)
 	MsgType int    `json:"-"`      // message type of the request (0: the builder's default)
 	CloseErr bool  `json:"-"`      // the connection's Close reports an error (and closes all the same)
 	Log     int    `json:"-"`      // client logging option: 0 none, 1 summary, 2 debug, 3 dropped-packets (v6) / custom logger (v4)
@@ -521,8 +522,12 @@ func (s *Sim) inject(xid int, kind string) {
 	s.wait("loop")
 }
 
+func (s *Sim) uncancellable(c int) bool {
+	return c-1 < len(s.cfg.CtxBackground) && s.cfg.CtxBackground[c-1] && s.ncalls[c-1] <= 1
+}
+
 func (s *Sim) ctxCancel(c int) {
-	if s.ctxDone[c-1] {
+	if s.ctxDone[c-1] || s.uncancellable(c) {
 		return
 	}
 	s.ctxDone[c-1] = true
@@ -610,6 +615,9 @@ func (s *Sim) finish() {
 		if s.cfg.Tries < 0 && idle > 3*s.cfg.T {
 			for c := range s.started {
 				if s.started[c] && !s.retd[c] {
+					if s.uncancellable(c+1) && s.closeState == "" {
+						s.closeStart() // nothing but Close ends a call that retries for ever under a context without Done
+					}
 					s.ctxCancel(c + 1)
 				}
 			}
